@@ -398,12 +398,18 @@ func runGroupCase(work string, c *GroupCase) {
 		c.Scenario = "not-run"
 		return
 	}
-	waitFor(30*time.Second, func() bool {
+	caughtUp := waitFor(120*time.Second, func() bool {
 		return g.ms[v].node.VerifAppliedIndex() >= g.ms[lead].node.VerifAppliedIndex() && g.ms[v].node.VerifAppliedIndex() > c.VictimLast
 	})
 	time.Sleep(500 * time.Millisecond)
 	c.VictimApplied = g.ms[v].node.VerifAppliedIndex()
 	c.Scenario = "ran"
+	if !caughtUp {
+		// "a store that rejoins catches up": 120 s is 50-100 times what this takes
+		c.Oracle = append(c.Oracle, fmt.Sprintf("rejoined member %d did not reach the leader's applied index within 120 s (applied %d, leader %d)",
+			v, c.VictimApplied, g.ms[lead].node.VerifAppliedIndex()))
+		return
+	}
 	// DIRECT ORACLE: a store that rejoined and caught up returns every acknowledged point with its latest value
 	lww, _ := g.ms[v].st.snapshot()
 	for k, val := range acked {
